@@ -216,12 +216,15 @@ def check_multifrequency(case, r: R):
         with r.lib('spectral-lines'):
             for n in nodes:
                 w_, x_ = fd.get_potential(n)
+                if len(w_) != len(freqs) or len(x_) != len(freqs):
+                    r.fail('spectral-axis', f'{len(w_)} frequencies / {len(x_)} lines reported, {len(freqs)} expected: {list(np.asarray(w_, dtype=float))} vs {freqs}')
+                    break
                 for k, f in enumerate(freqs):
                     if not tol.close(x_[k], X[('phi', n, f)], S_phi):
                         r.fail('spectral-line-potential', f'node {n!r} at w={f}: lib {x_[k]} exact {X[("phi", n, f)]}')
                 if len(w_) != len(freqs):
                     r.fail('spectral-axis', f'{len(w_)} lines')
-            for i in ids:
+            for i in ids if not r.failures else []:
                 _, x_ = fd.get_current(i)
                 _, v_ = fd.get_voltage(i)
                 for k, f in enumerate(freqs):
